@@ -530,6 +530,158 @@ pub fn socket_lag_case(dir: &std::path::PathBuf, later: usize) -> Result<(usize,
     res
 }
 
+/// A peer dials in from the very address (ip:port) under which the client already holds an outgoing
+/// connection (a client that makes its outgoing connections from its listening port, restarted
+/// under a new id). Real session and real accept path (loopback TCP, source port bound to X); the
+/// outgoing connection to X ends in a MemPipe (connect seam). The two connections must not get
+/// mixed up: every piece counted as owned is stored and verified, every Have / bitfield bit names
+/// such a piece, nothing panics.
+pub fn known_address_dial_in_case(dir: &std::path::PathBuf) -> Result<(usize, Option<(&'static str, String)>), String> {
+    use crate::fixture::Torrent;
+    use rdest::verif::{MemPipe, Status};
+    use std::cell::RefCell;
+    use std::rc::Rc;
+    use std::time::{Duration, Instant};
+    use tokio::io::{AsyncReadExt, AsyncWriteExt};
+    core::wipe_dir(dir);
+    rdest::verif::clear_snapshots();
+    rdest::verif::set_choices(vec![]);
+    rdest::verif::publish_listen_addr(None);
+    core::set_quiet_panics(true);
+    let t = Torrent::new("t", 16384, &[("f", 16384 * 3)], true);
+    let rt = tokio::runtime::Builder::new_current_thread().enable_all().build().map_err(|e| e.to_string())?;
+    let local = tokio::task::LocalSet::new();
+    let meta = t.meta.clone();
+    let port_x = std::net::TcpListener::bind("127.0.0.1:0").map_err(|e| e.to_string())?.local_addr().map_err(|e| e.to_string())?.port();
+    let addr_x = format!("127.0.0.1:{}", port_x);
+    let id_a = *b"-HS0001-knownaddr-A0";
+    let id_b = *b"-HS0001-knownaddr-B0";
+    let pipes: Rc<RefCell<Vec<(String, MemPipe)>>> = Rc::new(RefCell::new(vec![]));
+    let p2 = pipes.clone();
+    rdest::verif::set_net(Some(Box::new(move |addr: &str| {
+        let pipe = MemPipe::new();
+        p2.borrow_mut().push((addr.to_string(), pipe.clone()));
+        Some(pipe)
+    })));
+    let listed = crate::world::PeerCfg { addr: addr_x.clone(), id: id_a, outgoing: true, ungated: true };
+    let first = Rc::new(RefCell::new(true));
+    rdest::verif::set_http(Some(Box::new(move |_req: &reqwest::Request| {
+        let was_first = std::mem::replace(&mut *first.borrow_mut(), false);
+        if was_first {
+            crate::httpfake::respond(200, crate::fullworld::tracker_body(&[&listed]))
+        } else {
+            crate::httpfake::respond(200, crate::fullworld::tracker_body(&[]))
+        }
+    })));
+    let dir2 = dir.clone();
+    let res = local.block_on(&rt, async {
+        let mut session = rdest::Session::new(meta, *crate::world::OWN_ID);
+        let session_task = tokio::task::spawn_local(async move { session.verif_run().await });
+        let wait = |what: &'static str, cond: &dyn Fn() -> bool| {
+            let _ = what;
+            cond()
+        };
+        let _ = wait;
+        macro_rules! wait_for {
+            ($what:expr, $cond:expr) => {{
+                let started = Instant::now();
+                loop {
+                    if $cond {
+                        break Ok(());
+                    }
+                    if started.elapsed() > Duration::from_secs(10) {
+                        break Err(format!("timed out waiting for {}", $what));
+                    }
+                    tokio::time::sleep(Duration::from_millis(5)).await;
+                }
+            }};
+        }
+        wait_for!("the listener and the outgoing connection to X", rdest::verif::listen_addr().is_some() && pipes.borrow().iter().any(|(a, _)| *a == addr_x))?;
+        let listen = rdest::verif::listen_addr().unwrap();
+        let a = pipes.borrow().iter().find(|(a, _)| *a == addr_x).map(|(_, p)| p.clone()).unwrap();
+        let wire_a = |a: &MemPipe| refwire::decode_writes(&a.writes()).unwrap_or_default();
+        // A (the peer the client dialled under X): handshake, all pieces, unchoke
+        a.feed(&[refwire::encode(&refwire::handshake(t.meta.info_hash(), &id_a)), refwire::encode(&Msg::Bitfield(vec![0xe0])), refwire::encode(&Msg::Unchoke)].concat());
+        wait_for!("a request on the connection to A", wire_a(&a).iter().any(|m| matches!(m, Msg::Request(..))))?;
+        let (pa, ba, la) = wire_a(&a).iter().find_map(|m| if let Msg::Request(i, b, l) = m { Some((*i, *b, *l)) } else { None }).unwrap();
+        // B dials in FROM X's port: handshake under another id, every piece but the one A is asked for, unchoke
+        let sock = tokio::net::TcpSocket::new_v4().map_err(|e| e.to_string())?;
+        sock.set_reuseaddr(true).map_err(|e| e.to_string())?;
+        sock.bind(addr_x.parse().unwrap()).map_err(|e| format!("cannot bind the source port: {}", e))?;
+        let mut b = sock.connect(std::net::SocketAddr::from(([127, 0, 0, 1], listen.port()))).await.map_err(|e| format!("cannot dial the client: {}", e))?;
+        b.set_nodelay(true).ok();
+        let bits_b: Vec<bool> = (0..3).map(|i| i != pa as usize).collect();
+        for m in [refwire::handshake(t.meta.info_hash(), &id_b), Msg::Bitfield(refwire::bitfield_bytes(&bits_b)), Msg::Unchoke] {
+            b.write_all(&refwire::encode(&m)).await.map_err(|e| e.to_string())?;
+        }
+        // let the client work on B's messages (or refuse the connection)
+        let mut b_in: Vec<u8> = vec![];
+        let mut b_closed = false;
+        let mut buf = vec![0u8; 1 << 16];
+        let started = Instant::now();
+        while started.elapsed() < Duration::from_millis(1500) {
+            match tokio::time::timeout(Duration::from_millis(50), b.read(&mut buf)).await {
+                Ok(Ok(0)) | Ok(Err(_)) => {
+                    b_closed = true;
+                    break;
+                }
+                Ok(Ok(k)) => b_in.extend_from_slice(&buf[..k]),
+                Err(_) => {}
+            }
+            if refwire::decode_stream(&b_in).0.iter().any(|m| matches!(m, Msg::Request(..))) {
+                break;
+            }
+        }
+        // A delivers the block it was asked for
+        a.feed(&refwire::encode(&Msg::Piece(pa, ba, t.pieces[pa as usize][ba as usize..(ba + la) as usize].to_vec())));
+        tokio::time::sleep(Duration::from_millis(600)).await;
+        // drain B once more
+        while let Ok(Ok(k)) = tokio::time::timeout(Duration::from_millis(50), b.read(&mut buf)).await {
+            if k == 0 {
+                b_closed = true;
+                break;
+            }
+            b_in.extend_from_slice(&buf[..k]);
+        }
+        let died = session_task.is_finished();
+        let snap = rdest::verif::session_snapshot();
+        session_task.abort();
+        let msgs_b = refwire::decode_stream(&b_in).0;
+        let msgs_a = wire_a(&a);
+        let stored = |i: usize| std::fs::read(dir2.join(t.piece_file(i))).map(|d| core::sha1(&d) == t.hashes[i]).unwrap_or(false);
+        let mut frames = 0;
+        if died {
+            return Ok((0, Some(("manager-died", format!("a peer dialled in from {} (an address the client holds an outgoing connection to): the session's event loop ended; {:?}", addr_x, core::take_last_panic())))));
+        }
+        if let Some(p) = core::take_last_panic() {
+            return Ok((0, Some(("connection-task-panicked", format!("a peer dialled in from a connected address: {}", p)))));
+        }
+        let snap = snap.ok_or("no session snapshot".to_string())?;
+        for (i, st) in snap.statuses.iter().enumerate() {
+            if *st == Status::Have && !stored(i) {
+                return Ok((frames, Some(("piece-counted-as-done-without-stored-data", format!("the client holds an outgoing connection to {x} (peer A, asked for piece {pa}); a second peer dials in FROM {x} (handshake under another id, bitfield without piece {pa}, unchoke; connection closed by the client: {bc}); A then delivers piece {pa}: the manager counts piece {i} as owned, but no verified file of it is stored (statuses {st:?}; frames to the dial-in peer {mb:?}; to A {ma:?})", x = addr_x, pa = pa, i = i, bc = b_closed, st = snap.statuses, mb = msgs_b.iter().map(|m| m.short()).collect::<Vec<_>>(), ma = msgs_a.iter().map(|m| m.short()).collect::<Vec<_>>())))));
+            }
+        }
+        for (who, msgs) in [("the dial-in peer", &msgs_b), ("A", &msgs_a)] {
+            for m in msgs.iter() {
+                frames += 1;
+                if let Msg::Have(i) = m {
+                    if !stored(*i as usize) {
+                        return Ok((frames, Some(("have-for-unverified-piece", format!("Have({}) was sent to {} but that piece is not stored and verified (a peer dialled in from the address of a connected peer)", i, who)))));
+                    }
+                }
+            }
+        }
+        if !stored(pa as usize) || snap.statuses[pa as usize] != Status::Have {
+            return Ok((frames, Some(("delivered-piece-not-owned", format!("A delivered piece {} correctly but it is {:?} / stored={} after a second peer dialled in from A's address", pa, snap.statuses[pa as usize], stored(pa as usize))))));
+        }
+        Ok::<_, String>((frames, None))
+    });
+    rdest::verif::set_http(None);
+    rdest::verif::set_net(None);
+    res
+}
+
 pub fn run(ctx: &Ctx) -> Outcome {
     let thorough = ctx.tier == core::Tier::Thorough;
     let mut total = explore::Stats { exhaustive: true, ..Default::default() };
@@ -537,6 +689,12 @@ pub fn run(ctx: &Ctx) -> Outcome {
     for (s, depth) in scenarios(thorough) {
         let st = explore::bfs(ctx, &s, depth, ctx.tier.pick(50, 25));
         per.push(json!({"scenario": s.name(), "depth": depth, "states": st.states, "transitions": st.transitions, "depth_completed": st.depth_completed, "choice_points": st.choice_points, "frontier": st.frontier_sizes}));
+        total.merge(&st);
+    }
+    // what is announced across tracker-driven reconnects exists only in the full-session world
+    for (s, depth) in crate::c02::announce_scenarios() {
+        let st = explore::bfs(ctx, &s, depth, ctx.tier.pick(50, 25));
+        per.push(json!({"scenario": explore::Sys::name(&s), "depth": depth, "states": st.states, "transitions": st.transitions, "depth_completed": st.depth_completed}));
         total.merge(&st);
     }
     // a connection task that falls behind the broadcast queue (real sockets, real clock)
@@ -552,16 +710,47 @@ pub fn run(ctx: &Ctx) -> Outcome {
             Err(e) => ctx.machinery_error(format!("real-socket lag run ({} pieces) could not be carried out: {}", later, e)),
         }
     }
+    // a peer dialling in from the address of a connected peer (real accept path)
+    let ka_dir = core::private_cwd("c11", "knownaddr");
+    let ka_row = match known_address_dial_in_case(&ka_dir) {
+        Ok((n, None)) => json!({"frames_judged": n, "ok": true}),
+        Ok((n, Some((class, why)))) => {
+            ctx.violation(class, why, json!({"kind": "knownaddr"}));
+            json!({"frames_judged": n, "violation": class})
+        }
+        Err(e) => {
+            ctx.machinery_error(format!("known-address dial-in run could not be carried out: {}", e));
+            json!(null)
+        }
+    };
     let mut o = Outcome::new("model_checking");
     explore::stats_outcome(&total, &mut o);
     o.set("scenarios", Value::Array(per));
     o.set("real_socket_lag_runs", Value::Array(lag_rows));
-    o.set("rule", json!("single-block pieces; D (honest, outgoing, broadcasts ungated): P = correct answer to the oldest outstanding request (completes a piece); O1: A1 the client connects (writes handshake + bitfield), S1 peer handshake, U1/C1 unchoke/choke us, L1 release the oldest held-back broadcast to its connection task; O2 (incoming, present from the start): S2, U2/C2, L2; BFS over all interleavings, every tie-break of the chooser enumerated; states = canonical snapshots + monitor (released lists, Have frames per connection)."));
+    o.set("known_address_dial_in_run", ka_row);
+    o.set("rule", json!("single-block pieces; D (honest, outgoing, broadcasts ungated): P = correct answer to the oldest outstanding request (completes a piece); O1: A1 the client connects (writes handshake + bitfield), S1 peer handshake, U1/C1 unchoke/choke us, L1 release the oldest held-back broadcast to its connection task; O2 (incoming, present from the start): S2, U2/C2, L2; BFS over all interleavings, every tie-break of the chooser enumerated; states = canonical snapshots + monitor (released lists, Have frames per connection). Plus three full-session scenarios borrowed from C02 (announce-*: a host re-listed under a new peer id while its old connection is live, two seeders with held-back broadcasts, a connected address re-listed in front of a new one): every Have frame and every bitfield bit the client writes names a stored, verified piece. Plus real-socket runs (lag, dial-in from a connected address)."));
     o.assume("the property does not demand that announcements are held back while choked, only that holding back loses nothing; completion order = order of the manager's SendHave broadcasts");
     o
 }
 
 pub fn replay(_ctx: &Ctx, r: &Value) -> i32 {
+    if r["kind"] == "knownaddr" {
+        let dir = core::private_cwd("c11", "replay");
+        return match known_address_dial_in_case(&dir) {
+            Ok((_, Some((class, why)))) => {
+                println!("VIOLATION property=C11 replay=<this file>\n  class={} {}", class, why);
+                1
+            }
+            Ok((n, None)) => {
+                println!("holds for this run ({} frames judged)", n);
+                0
+            }
+            Err(e) => {
+                eprintln!("could not be carried out: {}", e);
+                2
+            }
+        };
+    }
     if r["kind"] == "lag" {
         let dir = core::private_cwd("c11", "replay");
         return match socket_lag_case(&dir, r["later"].as_u64().unwrap() as usize) {
@@ -580,6 +769,11 @@ pub fn replay(_ctx: &Ctx, r: &Value) -> i32 {
         };
     }
     let name = r["scenario"].as_str().unwrap();
+    for (s, _) in crate::c02::announce_scenarios() {
+        if explore::Sys::name(&s) == name {
+            return explore::replay_verbose(&s, &explore::hist_from_json(&r["history"]), "C11");
+        }
+    }
     for thorough in [false, true] {
         for (s, _) in scenarios(thorough) {
             if s.name() == name {
